@@ -2,19 +2,20 @@
 from __future__ import annotations
 
 import semcheck
+import tgen
 import semprop
 from props import _generic
 
 MODULE = "NgoVerif.Props.C11"
 LEVEL = ("Lean: for a symmetric context 'some pair with x != y' = 'some pair with x < y' (and a counterexample without symmetry), 'two different witnesses' = 'count >= 2' (Finset), auxiliary count rule = definitional extension. The pass's syntactic symmetry test and its use of projected domain atoms are validated with clingo (instances with <k, =k, >k matching atoms and ties).")
-RULE = ('oracle cases = programs harvested from /repo/tests (dependency,symmetry first) and mutations of them under symmetry only, 5 instances each (empty, small integer/symbolic domains, dense tiny domains, duplicates) over the input predicates; compared: answer sets on voc(P) one-to-one + costs; non-trivial = the pass changed the program and at least one instance was compared; distinct by program+flags')
+RULE = ('oracle cases = programs harvested from /repo/tests (dependency,symmetry first) mutations of them and programs of a targeted type-directed generator (harness/tgen.py) under symmetry only, 5 instances each (empty, small integer/symbolic domains, dense tiny domains, duplicates) over the input predicates; compared: answer sets on voc(P) one-to-one + costs; non-trivial = the pass changed the program and at least one instance was compared; distinct by program+flags')
 EXTRA = ['f :- p(A), p(B), q(A,X), q(B,Y), A != B, X < Y.', '1 { a(X,Y) : b(Y) } Q :- p(Q,X,V1), p(A,X,V2), Q != A, V1 != V2.', ':- p(A,S), p(B,S), p(C,S), A != B, B != C, A != C.', 'g(S) :- p(A,S), p(B,S), A != B.', '{p(1..4,a)}. :- p(X,S), p(Y,S), X < Y.']
 
 
 def run(ctx) -> int:
     flags = [semcheck.flags_only("symmetry")]
     return _generic.run_semantic(ctx, MODULE, LEVEL, RULE, flags, 'voc', {'dependency', 'symmetry'}, EXTRA, (110, 700), (80, 3000),
-                                 n_inst=5, facts_over='in', outp_choices=('auto',), one_to_one=True,
+                                 n_inst=5, facts_over='in', outp_choices=('auto',), one_to_one=True, generators=[tgen.GENERATORS['symmetry']],
                                  assumptions=("the pass's syntactic decisions are not derived from the ground-level side conditions in Lean (validated by the oracle)", 'instances range over the declared/auto-detected input predicates only'))
 
 
